@@ -3,6 +3,7 @@ CONSTANTS
   NSlots = 3
   MaxLen = 4
   WithMove = TRUE
+  Regrow = FALSE
   CloneDeep = FALSE
 INIT Init
 NEXT Next
